@@ -2,6 +2,7 @@ import collections.abc
 from collections.abc import Mapping, Set
 from contextlib import AbstractContextManager, contextmanager, nullcontext
 from dataclasses import dataclass, replace
+from keyword import iskeyword
 from typing import Any, Callable, Optional
 
 from ...code_tools.cascade_namespace import BuiltinCascadeNamespace, CascadeNamespace
@@ -329,7 +330,11 @@ class BuiltinModelLoaderGen(ModelLoaderGen):
 
                 value = state.v_field(field)
                 if param.kind == ParamKind.KW_ONLY or has_skipped_params:
-                    constructor_builder(f"{param.name}={value},")
+                    if param.name.isidentifier() and not iskeyword(param.name):
+                        constructor_builder(f"{param.name}={value},")
+                    else:
+                        # e.g. alias of pydantic field can be any string
+                        constructor_builder(f"**{{{param.name!r}: {value}}},")
                 elif param.kind == ParamKind.POS_ONLY and has_skipped_params:
                     raise ValueError(
                         "Can not generate consistent constructor call,"
